@@ -81,6 +81,7 @@ func TestC13(t *testing.T) {
 		ev.ClassN(id, "rewrites of a method receiver (*(T), (*T), *LocalAlias)", int64(info.Recv))
 		ev.ClassN(id, "rewrites through an alias declared inside the function body", int64(info.FuncLocalAlias))
 		ev.ClassN(id, "aliases of aliases", int64(info.AliasChain))
+		ev.ClassN(id, "pointer types behind an alias (type PAl = *T)", int64(info.PtrAlias))
 		ev.ClassN(id, "rewrites import-rename", int64(info.ImportRename))
 		ev.ClassN(id, "rewrites value<->pointer (param / literal / field)", int64(nvp))
 		for k := range ka {
